@@ -147,4 +147,98 @@ def explain (S : Sem σ W Q) (h : List (Call W Q)) : String :=
           " returned " ++ c.res.text ++ " which is the specification's answer at no version current during the call"
       | none => if !adjOk (versioned h) then "monotonicity: a thread observed a version older than one it had observed before" else "accepted"
 
+/-! ### the exact checker
+
+  `checkHistory` above tests four necessary conditions. `checkLin` below *decides* linearizability
+  (`Fox.C05.checkLin_iff_linearizable`): with the commit order of the writes known (their versions), a history is
+  linearizable iff every call can be given a version - a write its own, a read one whose state explains its result and
+  whose installing write had been called when the read returned - such that a call that returned before another was
+  called has no greater version. The least such assignment is computed greedily in the order of the call stamps. -/
+
+/-- version `g.ver` explains call `c` -/
+def explains (S : Sem σ W Q) (c : Call W Q) (g : Seg σ W Q) : Bool :=
+  match c.op with
+  | .w _ => decide (c.ver = g.ver)
+  | .r q => (match g.by_ with | none => true | some w => decide (w.call ≤ c.ret)) && decide (c.res = S.rd g.ver g.st q)
+
+def allowed (S : Sem σ W Q) (segs : List (Seg σ W Q)) (c : Call W Q) : List Nat :=
+  (segs.filter (explains S c)).map (·.ver)
+
+/-- the greatest version given to a call that had returned before `c` was called -/
+def lowerBound (acc : List (Call W Q × Nat)) (c : Call W Q) : Nat :=
+  acc.foldl (fun m p => if p.1.ret < c.call then max m p.2 else m) 0
+
+/-- the least element of `l` that is at least `lb` -/
+def leastFrom (lb : Nat) : List Nat → Option Nat
+  | [] => none
+  | x :: xs =>
+    match leastFrom lb xs with
+    | none => if lb ≤ x then some x else none
+    | some y => if lb ≤ x ∧ x ≤ y then some x else some y
+
+/-- greedy assignment: calls in the order given, each the least allowed version not below its lower bound -/
+def assign (S : Sem σ W Q) (segs : List (Seg σ W Q)) : List (Call W Q × Nat) → List (Call W Q) → Option (List (Call W Q × Nat))
+  | acc, [] => some acc
+  | acc, c :: cs =>
+    match leastFrom (lowerBound acc c) (allowed S segs c) with
+    | none => none
+    | some v => assign S segs ((c, v) :: acc) cs
+
+def byCall (h : List (Call W Q)) : List (Call W Q) := h.mergeSort fun a b => decide (a.call ≤ b.call)
+
+/-- the exact checker: `true` iff the history is linearizable (for histories whose calls return after they are called) -/
+def checkLin (S : Sem σ W Q) (h : List (Call W Q)) : Bool :=
+  match mkSegs S 0 S.init none (sortedWrites h) with
+  | none => false
+  | some segs => (assign S segs [] (byCall h)).isSome
+
+/-- the first call the greedy assignment cannot place (for the report) -/
+def stuckAt (S : Sem σ W Q) (segs : List (Seg σ W Q)) : List (Call W Q × Nat) → List (Call W Q) → Option (Call W Q × Nat)
+  | _, [] => none
+  | acc, c :: cs =>
+    match leastFrom (lowerBound acc c) (allowed S segs c) with
+    | none => some (c, lowerBound acc c)
+    | some v => stuckAt S segs ((c, v) :: acc) cs
+
+def wellStamped (h : List (Call W Q)) : Bool := h.all fun c => decide (c.call ≤ c.ret)
+
+def explainLin (S : Sem σ W Q) (h : List (Call W Q)) : String :=
+  match mkSegs S 0 S.init none (sortedWrites h) with
+  | none => explain S h
+  | some segs =>
+    match stuckAt S segs [] (byCall h) with
+    | none => "accepted"
+    | some (c, lb) =>
+      let old := explain S h
+      if old != "accepted" then old else
+      "order: thread " ++ toString c.tid ++ " call@" ++ toString c.call ++ " ret@" ++ toString c.ret ++ " returned " ++ c.res.text ++
+        " which no version >= " ++ toString lb ++ " explains, although a call that had returned before was given version " ++ toString lb
+
+/-! ### the exact checker, as it is run: same answer (`Fox.C05.checkLinFast_eq`), linear passes
+
+  The segments are in increasing version order, so the least allowed version from `lb` on is the first segment from
+  `lb` on that explains the call; and because the calls are processed in the order of their call stamps, only the calls
+  that have not returned yet (at most one per thread) need to be kept to compute the lower bound of the next one. -/
+
+def pick (S : Sem σ W Q) (segs : List (Seg σ W Q)) (lb : Nat) (c : Call W Q) : Option Nat :=
+  (segs.find? fun g => decide (lb ≤ g.ver) && explains S c g).map (·.ver)
+
+/-- lower bound from the versions of the calls already returned (`done`) and of those still pending `(ret, version)` -/
+def lbP (done : Nat) (pend : List (Nat × Nat)) (call : Nat) : Nat :=
+  pend.foldl (fun m p => if p.1 < call then max m p.2 else m) done
+
+def assignFast (S : Sem σ W Q) (segs : List (Seg σ W Q)) :
+    Nat → List (Nat × Nat) → List (Call W Q × Nat) → List (Call W Q) → Option (List (Call W Q × Nat))
+  | _, _, acc, [] => some acc
+  | done, pend, acc, c :: cs =>
+    match pick S segs (lbP done pend c.call) c with
+    | none => none
+    | some v =>
+      assignFast S segs (lbP done pend c.call) ((c.ret, v) :: pend.filter fun p => !decide (p.1 < c.call)) ((c, v) :: acc) cs
+
+def checkLinFast (S : Sem σ W Q) (h : List (Call W Q)) : Bool :=
+  match mkSegs S 0 S.init none (sortedWrites h) with
+  | none => false
+  | some segs => (assignFast S segs 0 [] [] (byCall h)).isSome
+
 end Fox.Spec.History
